@@ -52,6 +52,9 @@ struct SymPolicy {
     return id < symt::arena().nodes.size();
   }
   // integer-typed traces: v, -v or ~v decodes as a lane handle => glm read an aligned vector's int members
+  // integer-typed traces: a C++ int that IS a lane word was copied unchanged out of an aligned vector (or is a unit
+  // input handed to a constructor): moving it is faithful, it stays the lane it was
+  static bool int_is_lane(uint32_t v, W& w) { if (mode() == M_R) return false; uint32_t id; if (!dec(W{v}, id)) return false; w = W{v}; return true; }
   static bool suspicious_int(uint32_t v) { if (mode() == M_R) return false; uint32_t id; return dec(W{v}, id) || dec(W{0u - v}, id) || dec(W{~v}, id); }
   static uint32_t idof(W w) { uint32_t id; if (!dec(w, id)) fail("internal: operation on a poisoned lane"); return id; }
   static symt::Node node(W w) { return symt::arena().nodes[idof(w)]; }
@@ -78,8 +81,10 @@ struct SymPolicy {
     if ((b & 0x7FFFFFFFu) == 0x7F800000u) { uint32_t k = symt::mk_konst(symt::K_INF); return enc((b >> 31) ? symt::mk(symt::NEG, k) : k); }
     float f; std::memcpy(&f, &b, 4); return enc(symt::mk_lit((double)f));
   }
-  static W w_of_r(R r) { if (mode() == M_R) return W{r.id}; return r.id < symt::arena().nodes.size() ? enc(r.id) : W{0xFFFFFFFFu}; }
-  static R r_of_w(W w) { if (mode() == M_R) return R::from(w.raw); uint32_t id; return R::from(dec(w, id) ? id : 0xFFFFFFFFu); }
+  // memory holds lane words in every mode (in an integer-typed trace a `float*` access is glm moving integer lanes
+  // through _mm_load_ss / _mm_store_ss: the 4 bytes are an encoded lane word, not a SymR)
+  static W w_of_r(R r) { return W{r.id}; }
+  static R r_of_w(W w) { return R::from(w.raw); }
 
   // double lanes (SymD): same nodes as the float lanes; an invalid handle is poison and propagates
   static bool dok(D a) { return a.id < symt::arena().nodes.size(); }
